@@ -280,6 +280,8 @@ def _update_local_references(rules):
         counter.previsit(node)
         if node.is_reference and counter.is_bound(node.name):
             node.is_local = True
+        if isinstance(node, ex.PythonExpression):
+            node.local_names = sorted(x for x in node.names() if counter.is_bound(x))
 
     visit(rules, previsit, counter.postvisit)
 
